@@ -346,6 +346,37 @@ func (c *c04Ctx) one(expr, family string) bool {
 	}
 	rp.Folded = folded.String()
 	changed := termIn != termOut
+	// ---- direct verdict on the implementation (before the case is registered, so that the
+	// replay of a failing case carries the pair and the two results)
+	failWhat := ""
+	for i, kv := range c.pairs {
+		if !rowOK[i] {
+			continue
+		}
+		val, err, pn := execRow(folded, kv[0], kv[1], false)
+		if err != nil || pn != "" || c04Canon(val) != rowCanon[i] {
+			rp.Mode, rp.Key, rp.Val, rp.Orig = "row (Execute)", kv[0], kv[1], rowCanon[i]
+			rp.After = c04Outcome(val, err, pn)
+			failWhat = "the rewritten expression evaluates to a different value (or kind, or fails) where the original evaluates"
+			break
+		}
+	}
+	if failWhat == "" && batchOK {
+		fvals, ferr, fpn := execBatch(folded, c.pairs, false)
+		if ferr != nil || fpn != "" || len(fvals) != n {
+			rp.Mode, rp.Orig, rp.After = "batch (ExecuteBatch)", "a value on every pair", c04Outcome(nil, ferr, fpn)
+			failWhat = "the rewritten expression fails in batch evaluation where the original evaluates"
+		} else {
+			for i, kv := range c.pairs {
+				if c04Canon(fvals[i]) != c04Canon(bvals[i]) {
+					rp.Mode, rp.Key, rp.Val = "batch (ExecuteBatch)", kv[0], kv[1]
+					rp.Orig, rp.After = c04Canon(bvals[i]), c04Canon(fvals[i])
+					failWhat = "the rewritten expression evaluates to a different value (or kind) in batch evaluation"
+					break
+				}
+			}
+		}
+	}
 	c.n++
 	obsTerm := "[]"
 	if c.obsAll || c.n%3 == 0 || strings.HasPrefix(family, "E ") {
@@ -365,40 +396,14 @@ func (c *c04Ctx) one(expr, family string) bool {
 	if !anyVal {
 		e.count("original fails on every pair")
 	}
+	if !batchOK {
+		e.count("original fails in batch evaluation")
+	}
 	if w.mismatch > 0 {
 		e.count("literal text differs from its value field")
 	}
-	// ---- direct verdict on the implementation: row evaluator
-	for i, kv := range c.pairs {
-		if !rowOK[i] {
-			continue
-		}
-		val, err, pn := execRow(folded, kv[0], kv[1], false)
-		if err != nil || pn != "" || c04Canon(val) != rowCanon[i] {
-			rp.Mode, rp.Key, rp.Val, rp.Orig = "row (Execute)", kv[0], kv[1], rowCanon[i]
-			rp.After = c04Outcome(val, err, pn)
-			e.fail(idx, "the rewritten expression evaluates to a different value (or kind, or fails) where the original evaluates", "C04/value-changed", rp)
-			return true
-		}
-	}
-	// ---- batch evaluator
-	if batchOK {
-		fvals, ferr, fpn := execBatch(folded, c.pairs, false)
-		if ferr != nil || fpn != "" || len(fvals) != n {
-			rp.Mode, rp.Orig, rp.After = "batch (ExecuteBatch)", "values", c04Outcome(nil, ferr, fpn)
-			e.fail(idx, "the rewritten expression fails in batch evaluation where the original evaluates", "C04/value-changed", rp)
-			return true
-		}
-		for i, kv := range c.pairs {
-			if c04Canon(fvals[i]) != c04Canon(bvals[i]) {
-				rp.Mode, rp.Key, rp.Val = "batch (ExecuteBatch)", kv[0], kv[1]
-				rp.Orig, rp.After = c04Canon(bvals[i]), c04Canon(fvals[i])
-				e.fail(idx, "the rewritten expression evaluates to a different value (or kind) in batch evaluation", "C04/value-changed", rp)
-				return true
-			}
-		}
-	} else {
-		e.count("original fails in batch evaluation")
+	if failWhat != "" {
+		e.fail(idx, failWhat, "C04/value-changed", rp)
 	}
 	return true
 }
@@ -615,11 +620,17 @@ func runC04(c *runCtx) error {
 	r := newRng(c.seed)
 	header := "From Coq Require Import List String ZArith.\nFrom KV Require Import Base.Bytes Model.Ast Model.Value Corr.EvalCommon Corr.C04.\nImport ListNotations.\nOpen Scope string_scope.\nDefinition P : list (bytes * bytes) := " + coqPairs(c04Pairs) + ".\n"
 	e := newEmitter(c.out, "C04", header, 200)
-	thorough := c.thorough() || c.search
+	thorough := c.thorough()
 	ctx := &c04Ctx{e: e, r: r, pairs: c04Pairs, obsAll: false}
 	e.m.Rule = "checker-accepted expressions over the constants {0,1,2,3,7, 0.5,1.5,2.0, 'a','b', true,false} and the row-dependent leaves {key, value, int(value), float(value)}: (A) every + - * / tree of depth <= 1 over the whole pool and every tree of depth 2 over {2,0.5,1.5,int(value),float(value)}; (B) every chain ((x o c1) o c2) o c3 and its re-bracketings for o in {+,*} and mixed operators; (C) every & | tree of depth <= 2 over constant-true, constant-false and row-dependent atoms, with !, and, or; (D) comparisons of arithmetic / text trees; (E) function calls with constant arguments; (F) seeded random typed expressions up to depth 6; (G) whole statements. Exhaustive families are complete in the thorough tier and a seeded subsample in the quick tier. Each expression is evaluated on 11 stored pairs before and after Optimize, row and batch evaluator. non-trivial = accepted by the checker and rewritten by the optimizer (folded tree differs from the original); distinct = distinct (original, folded) trees"
 	// keep(n): every case in the thorough tier, one in n in the quick tier
-	keep := func(n int) bool { return thorough || n <= 1 || r.chance(1, n) }
+	// (the widened search after a broken correspondence: one in n/6)
+	keep := func(n int) bool {
+		if c.search {
+			n = n / 6
+		}
+		return thorough || n <= 1 || r.chance(1, n)
+	}
 
 	// ---- A: arithmetic
 	full := append(append(append([]string{}, c04IntC...), c04FltC...), "int(value)", "float(value)")
@@ -822,6 +833,9 @@ func runC04(c *runCtx) error {
 	}
 	// ---- F: random
 	nr := 450
+	if c.search {
+		nr = 4000
+	}
 	if thorough {
 		nr = 25000
 	}
